@@ -756,6 +756,10 @@ class Runner:
         try:
             c = coerce_input_value(v, ty)
             co = ("invalid",) if c is Undefined else ("good", c)
+            c2 = coerce_input_value(to_py(spec, self.reg), ty)   # second run: memoised defaults
+            s1, s2 = py_to_spec(c, self.reg), py_to_spec(c2, self.reg)
+            if s1 is not None and s2 is not None and canon(s1) != canon(s2):
+                co = ("raised", "second coercion differs (memoised default)")
         except TypeError:
             co = ("crash",)
         except RecursionError:
@@ -928,9 +932,9 @@ class Runner:
             else:
                 vvu = vv
             cases.append([11] + self.header(desc, st, []) + env_wire(env) + type_wire(t) + lit_wire(l))
-            metas.append((ai, t, l, vvu, env))
+            metas.append((ai, t, l, vvu, env, defs, inputs))
         outs = self.m.run_batch(cases)
-        for (ai, t, l, vv, env), out in zip(metas, outs):
+        for (ai, t, l, vv, env, defs, inputs), out in zip(metas, outs):
             r = Rd(out)
             try:
                 m_co = rd_result(r.block(), lambda b: b.val())
@@ -1047,6 +1051,39 @@ class Runner:
                     continue
             if not (cmp_co("coerce_input_literal(no variables)", c0, m_c0) and cmp_paths("validate_input_literal(static)", stv, m_st)):
                 continue
+            # ---- the argument as the resolver receives it (get_argument_values / coerce_argument)
+            if vv is not None and getattr(self, "schema_valid", True):
+                from graphql import execute_sync
+                src = ("query (" + " ".join(f"${n}: {type_sdl(vt)}" + (f" = {lit_text(d)}" if d is not None else "")
+                                            for n, vt, d in defs) + ") " if defs else "") + "{ f%d(x: %s) }" % (ai, lit_text(l))
+                got_args = []
+                try:
+                    res = execute_sync(schema, parse(src), variable_values={"".join(map(chr, k)): to_py(v, self.reg) for k, v in inputs},
+                                       field_resolver=lambda _s, _i, **kw: (got_args.append(kw), 1)[1])
+                    if res.errors:
+                        got = ("error",)
+                    elif len(got_args) == 1:
+                        a = got_args[0]
+                        got = ("args", tuple(sorted((k, canon(py_to_spec(x) or ["undef"])) for k, x in a.items())))
+                    else:
+                        got = ("no-call",)
+                except GraphQLError:
+                    got = ("unparsable",)
+                except Exception as e:  # noqa: BLE001
+                    got = ("raised", type(e).__name__)
+                top_missing_var = l[0] == "var" and l[1] not in dict(env)
+                if top_missing_var and t[0] != "nn":
+                    want = ("args", ())
+                elif m_co[0] == "good":
+                    want = ("args", (("x", canon(m_co[1])),))
+                else:
+                    want = ("error",)
+                if got[0] != "unparsable":
+                    ck.count("argument_via_execute")
+                    if got != want:
+                        ck.violation(rk, f"execute {src} with {short(inputs)}: resolver arguments {got!r:.120}, model {want!r:.120}",
+                                     dict(rep, relation="argument handed to the resolver = coerced literal (impl = model)",
+                                          operation=src, inputs=inputs, impl=repr(got)[:300], model=repr(want)[:300]))
 
     # ---- variables
     def variable_cases(self, schema, desc, items):
@@ -1210,7 +1247,7 @@ def run(tier):
     R = Runner(ck, m)
     quick = tier == "quick"
     gen = Gen(ck.rng, thorough=not quick)
-    n_schemas = 40 if quick else 1500
+    n_schemas = 100 if quick else 900
     n_val, n_lit, n_var = (60, 60, 12) if quick else (120, 120, 25)
     ck.rule = (f"{n_schemas} generated schemas (1-2 enums, 2-4 input objects incl. recursive and OneOf ones, literal defaults, "
                f"mostly valid, ~4% invalid) + fixed ones; per schema {n_val} (type, value) pairs, {n_lit} (type, literal, variables) "
